@@ -1,3 +1,188 @@
+(* C16 — property theorems (statements only; proofs are in Proofs.v).
+   labels : the wrapped dataset's labels; C : its announced class count;
+   w : wrapper kind + constructor arguments + recorded draws (Model.wspec);
+   contractb : domain of the property + range contract of the draws (Spec.v). *)
+From Coq Require Import ZArith List Bool QArith Permutation.
+Import ListNotations.
 From KD Require Import C16.Model C16.Spec C16.Proofs.
-Theorem placeholder_C16 : True. Proof. exact I. Qed.
-Print Assumptions placeholder_C16.
+Open Scope Z_scope.
+
+(* ---- (1) bulk accessor = per-sample accessor ---- *)
+Theorem getall_eq_map_getitem : forall w C labels,
+  contractb w C labels = true -> coherent (w_items w C labels) (w_getall w C labels).
+Proof. exact getall_eq_map_getitem_all. Qed.
+Print Assumptions getall_eq_map_getitem.
+
+Theorem class_groups_getall_eq_map_getitem : forall C p labels,
+  cg_getall C p labels = map (cg_getitem C p labels) (seq 0 (length labels)).
+Proof. exact cg_coherent. Qed.
+Print Assumptions class_groups_getall_eq_map_getitem.
+
+Theorem superclass_getall_eq_map_getitem : forall C p labels,
+  sc_getall C p labels = map (sc_getitem C p labels) (seq 0 (length labels)).
+Proof. exact sc_coherent. Qed.
+Print Assumptions superclass_getall_eq_map_getitem.
+
+Theorem swap_getall_eq_map_getitem : forall p labels,
+  length (sw_apply p) = length labels -> length (sw_new p) = length labels ->
+  sw_getall p labels = map (sw_getitem p labels) (seq 0 (length labels)).
+Proof. exact sw_coherent. Qed.
+Print Assumptions swap_getall_eq_map_getitem.
+
+Theorem overwrite_getall_eq_map_getitem : forall classes n,
+  length classes = n -> ow_getall classes = map (ow_getitem classes) (seq 0 n).
+Proof. exact ow_coherent. Qed.
+Print Assumptions overwrite_getall_eq_map_getitem.
+
+Theorem allgather_getall_eq_map_getitem : forall W labels,
+  ag_getall W labels = map (ag_getitem W labels) (seq 0 (length labels)).
+Proof. exact ag_coherent. Qed.
+Print Assumptions allgather_getall_eq_map_getitem.
+
+(* the bulk accessor of the pseudo-label wrapper, WHEN it answers (top-k sampling raises
+   NotImplementedError), is the per-sample list — thresholded tables included *)
+Theorem pseudo_label_getall_eq_map_getitem : forall p n l,
+  match p with PLHard pl => length pl = n | PLSoft am => length am = n | _ => True end ->
+  pl_getall p n = Some l -> l = map (pl_getitem p) (seq 0 n).
+Proof. exact pl_coherent. Qed.
+Print Assumptions pseudo_label_getall_eq_map_getitem.
+
+Theorem random_class_getall_eq_map_getitem : forall nc (labels : list Z) m C,
+  contractb (WRandomClass nc m) C labels = true ->
+  rc_getall nc (length labels) m = map (rc_getitem nc (length labels) m) (seq 0 (length labels)).
+Proof. exact rc_coherent. Qed.
+Print Assumptions random_class_getall_eq_map_getitem.
+
+Theorem semi_getall_eq_map_getitem : forall k perm labels,
+  se_getall k perm labels = map (se_getitem k perm labels) (seq 0 (length labels)).
+Proof. exact se_coherent. Qed.
+Print Assumptions semi_getall_eq_map_getitem.
+
+(* ---- (2) range ---- *)
+Theorem labels_in_announced_range : forall w C labels,
+  contractb w C labels = true ->
+  forall idx, (idx < length labels)%nat ->
+  label_okb (allows_unlabeled w) (w_shape w C) (w_getitem w C labels idx) = true.
+Proof. exact labels_in_range_all. Qed.
+Print Assumptions labels_in_announced_range.
+
+(* class groups, group size dividing C: labels stay in [0, C) *)
+Theorem class_groups_labels_in_range : forall C p labels idx,
+  contractb (WClassGroups p) C labels = true -> (idx < length labels)%nat ->
+  0 <= cg_getitem C p labels idx < C.
+Proof. exact cg_range. Qed.
+Print Assumptions class_groups_labels_in_range.
+
+(* superclass: labels < ceil(C / k) * splits = getshape_class *)
+Theorem superclass_labels_below_bound : forall C p labels idx,
+  contractb (WSuperclass p) C labels = true -> (idx < length labels)%nat ->
+  0 <= sc_getitem C p labels idx < ceil_div C (sc_cps p) * sc_splits p.
+Proof. exact sc_range. Qed.
+Print Assumptions superclass_labels_below_bound.
+
+(* the generators' contracts imply the range hypotheses of contractb *)
+Theorem permuted_contract_implies_range : forall C k d,
+  Permutation d (cg_table0 C k) -> forallb (in_rangeb (ceil_div C k)) d = true.
+Proof. exact permuted_in_range. Qed.
+Print Assumptions permuted_contract_implies_range.
+
+Theorem permutation_contract_implies_range : forall C d,
+  Permutation d (zrange C) -> forallb (in_rangeb C) d = true.
+Proof. exact permutation_in_range. Qed.
+Print Assumptions permutation_contract_implies_range.
+
+(* ---- (4) all-gather order: (s w) -> (w s) with padding, cut to n ---- *)
+Theorem allgather_permutation_shape : forall n W, (1 <= W <= n)%nat ->
+  length (ag_indices n W) = n /\
+  forall j, (j < n)%nat -> nth j (ag_indices n W) O = ag_spec n W j /\ (ag_spec n W j < n)%nat.
+Proof.
+  intros n W H. split; [now apply ag_indices_length|].
+  intros j Hj. split; [now apply ag_indices_nth|now apply ag_spec_lt].
+Qed.
+Print Assumptions allgather_permutation_shape.
+
+(* ---- (3) encodings over Q ---- *)
+Theorem smooth_nonneg : forall sm C y, (0 <= sm <= 1)%Q -> 0 < C -> vec_nonneg (ls_vec sm C y).
+Proof. exact smooth_nonneg_lem. Qed.
+Print Assumptions smooth_nonneg.
+
+Theorem smooth_sums_to_one : forall sm C y, 0 <= y < C -> vec_sums_to_one (ls_vec sm C y).
+Proof. exact smooth_sum_lem. Qed.
+Print Assumptions smooth_sums_to_one.
+
+Theorem smooth_argmax : forall sm C y, (0 <= sm <= 1)%Q -> 0 <= y < C ->
+  is_argmax (Z.to_nat y) (ls_vec sm C y).
+Proof. exact smooth_argmax_lem. Qed.
+Print Assumptions smooth_argmax.
+
+(* v[y] > v[j] for every other class j  iff  smoothing < 1 *)
+Theorem smooth_argmax_strict_iff : forall sm C y j, 0 <= y < C -> (j < Z.to_nat C)%nat -> j <> Z.to_nat y ->
+  ((nth j (ls_vec sm C y) 0 < nth (Z.to_nat y) (ls_vec sm C y) 0)%Q <-> (sm < 1)%Q).
+Proof. exact smooth_strict_lem. Qed.
+Print Assumptions smooth_argmax_strict_iff.
+
+Theorem smooth_binary : forall sm, (0 <= sm <= 1)%Q -> ~ (sm == 0)%Q ->
+  (exists q, ls_getitem sm 1 1 = EScalar q /\ ((1 # 2) <= q <= 1)%Q) /\
+  (exists q, ls_getitem sm 1 0 = EScalar q /\ (0 <= q <= (1 # 2))%Q).
+Proof. exact smooth_binary_lem. Qed.
+Print Assumptions smooth_binary.
+
+Theorem onehot_distribution_strict_argmax : forall C y, 0 <= y < C ->
+  vec_nonneg (oh_vec C y) /\ vec_sums_to_one (oh_vec C y) /\ is_strict_argmax (Z.to_nat y) (oh_vec C y).
+Proof. exact onehot_lem. Qed.
+Print Assumptions onehot_distribution_strict_argmax.
+
+(* reading decision of DESIGN.md: for the re-encoding wrappers the bulk accessor stays the
+   integer label and the per-sample vector is a distribution with that label as argmax *)
+Theorem encoding_matches_bulk_label : forall e C labels idx,
+  (idx < length labels)%nat -> 0 <= nth idx labels 0 < C -> 2 <= C ->
+  match e with ESmooth sm => (0 <= sm <= 1)%Q /\ ~ (sm == 0)%Q | EOneHot => True end ->
+  exists v, e_getitem e C labels idx = EVec v /\ length v = Z.to_nat C /\
+            vec_nonneg v /\ vec_sums_to_one v /\ is_argmax (Z.to_nat (nth idx (e_getall e labels) 0)) v.
+Proof. exact encoding_matches_bulk_lem. Qed.
+Print Assumptions encoding_matches_bulk_label.
+
+(* ---- structural ---- *)
+Theorem mapping_function_of_args_and_draws : forall w1 w2 C labels, w1 = w2 ->
+  w_items w1 C labels = w_items w2 C labels /\ w_getall w1 C labels = w_getall w2 C labels
+  /\ w_shape w1 C = w_shape w2 C.
+Proof. exact mapping_function. Qed.
+Print Assumptions mapping_function_of_args_and_draws.
+
+(* ---- non-vacuity: every contract is satisfiable (one witness per wrapper / mode) ---- *)
+Example nv_class_groups :
+  contractb (WClassGroups {| cg_cpg := 2; cg_shuffle := true; cg_draw := [1; 0; 0; 1] |}) 4 [0; 3; 3; 1] = true.
+Proof. reflexivity. Qed.
+Example nv_superclass :
+  contractb (WSuperclass {| sc_cps := 2; sc_splits := 2; sc_shuffle := true; sc_perm := [2; 0; 1];
+                            sc_perm2 := [1; 0]%nat |}) 3 [2; 0] = true.
+Proof. reflexivity. Qed.
+Example nv_swap : contractb (WSwap {| sw_apply := [true; false]; sw_new := [1; 0] |}) 2 [0; -1] = true.
+Proof. reflexivity. Qed.
+Example nv_overwrite : contractb (WOverwrite [2; -1; 2]) 3 [0; 1; 2] = true.
+Proof. reflexivity. Qed.
+Example nv_allgather : contractb (WAllgather 3) 7 [0; 1; 2; 3; 4; 5; 6] = true.
+Proof. reflexivity. Qed.
+Example nv_pseudo_hard : contractb (WPseudo (PLHard [1; -1])) 2 [0; 0] = true.
+Proof. reflexivity. Qed.
+Example nv_pseudo_soft : contractb (WPseudo (PLSoft [1; 0])) 2 [0; 0] = true.
+Proof. reflexivity. Qed.
+Example nv_pseudo_thr : contractb (WPseudo (PLThr [1; 0] [true; false])) 2 [0; 0] = true.
+Proof. reflexivity. Qed.
+Example nv_pseudo_topk : contractb (WPseudo (PLTopk [[2; 0]; [1; 2]] [1; 0])) 3 [0; 0] = true.
+Proof. reflexivity. Qed.
+Example nv_random : contractb (WRandomClass 3 (RCRandom [2; 0])) 5 [0; 0] = true.
+Proof. reflexivity. Qed.
+Example nv_randperm : contractb (WRandomClass 3 (RCRandperm [2; 0; 1])) 5 [0; 0; 0; 0] = true.
+Proof. reflexivity. Qed.
+Example nv_gatherbug : contractb (WRandomClass 3 (RCGatherbug 2)) 5 [0; 0; 0; 0; 0] = true.
+Proof. reflexivity. Qed.
+Example nv_semi : contractb (WSemi 1 [1; 0]%nat) 2 [1; -1] = true.
+Proof. reflexivity. Qed.
+(* the defect inputs of DESIGN.md §3 evaluate to coherent answers in the repaired model *)
+Example nv_d18 : ag_getall 3 [0; 1; 2; 3; 4; 5; 6] = [0; 3; 6; 1; 4; 0; 2].
+Proof. reflexivity. Qed.
+Example nv_allgather_spec : map (ag_spec 7 3) (seq 0 7) = [0; 3; 6; 1; 4; 0; 2]%nat.
+Proof. reflexivity. Qed.
+Example nv_permuted : Permutation [1; 0; 0; 1] (cg_table0 4 2).
+Proof. simpl. apply perm_trans with [0; 1; 0; 1]; [apply perm_swap|]. apply perm_skip. apply perm_swap. Qed.
